@@ -143,6 +143,17 @@ def ttlCheck (expired : Reject) (p : Bytes) (ttl : Nat) (now : Int) : Res Unit :
     | some created => if now - (created : Int) > (ttl : Int) then .reject expired else .ok ()
   else .ok ()
 
+/-- the TTL test of `_open_call_token_dated`: `created_at = unpack_from("<Q", plaintext, 0)` unconditionally, then
+    `if token_ttl > 0 and int(time.time()) - created_at > token_ttl: raise` -/
+def ttlCheckFlat (expired : Reject) (p : Bytes) (ttl : Nat) (now : Int) : Res Unit :=
+  match unpackFrom Token.tsFmtWidth p 0 with
+  | none => .crash
+  | some created => if ttl > 0 ∧ now - (created : Int) > (ttl : Int) then .reject expired else .ok ()
+
+/-- the call opener's TTL test, in the shape the source has (`Gen.Token.callTtlFlat`) -/
+def callTtlCheck (p : Bytes) (ttl : Nat) (now : Int) : Res Unit :=
+  if Token.callTtlFlat then ttlCheckFlat .callExpired p ttl now else ttlCheck .callExpired p ttl now
+
 /-- zstd as an environment (python-zstandard); `decompress = none` is `ZstdError` -/
 structure Zstd where
   compress : Bytes → Bytes
@@ -260,7 +271,8 @@ def openCursorObs (strict : Bool) (z : Zstd) (key : KeyId) (aadBytes : Bytes) (t
         | .reject r => .reject r | .missingCall => .missingCall | .decodeError => .decodeError | .crash => .crash
       | .reject r => .reject r | .missingCall => .missingCall | .decodeError => .decodeError | .crash => .crash
 
-/-- `_open_call_token` on an observed text → `(call_id, body)` -/
+/-- `_open_call_token_dated` on an observed text → `(call_id, body)` (the returned `created_at` only feeds the cache
+    entry's age, which this model abstracts: `Cache` is a lookup, expiry is `Step.evict`) -/
 def openCallObs (strict : Bool) (z : Zstd) (key : KeyId) (aadBytes : Bytes) (ttl : Nat) (now : Int) (o : WireObs) :
     Res (Bytes × CallBody) :=
   match decodeObs strict o with
@@ -273,7 +285,7 @@ def openCallObs (strict : Bool) (z : Zstd) (key : KeyId) (aadBytes : Bytes) (ttl
       | .ok plain =>
         match unpackCallPlain plain with
         | .ok r =>
-          match ttlCheck .callExpired plain ttl now with
+          match callTtlCheck plain ttl now with
           | .ok () => .ok r
           | .reject r => .reject r | .missingCall => .missingCall | .decodeError => .decodeError | .crash => .crash
         | .reject r => .reject r | .missingCall => .missingCall | .decodeError => .decodeError | .crash => .crash
@@ -317,6 +329,7 @@ structure ReqObs where
 structure Decoders where
   callDecodes : CallBody → Bool        -- schemas + call state deserialize, type name is one the method declares
   stateDecodes : Bytes → Bool          -- `_resolve_state_cls` + `_deserialize_state_bytes` + bind + rehydrate do not raise
+  hitTypeDeclared : CacheEntry → Bool  -- cache hit: the cached call state's type is one the serving method declares
 
 /-- side effects of one `_unpack_and_recover_state`, in order -/
 inductive Effect where
@@ -342,24 +355,27 @@ def resolveCallFromToken (sh : Shape) (z : Zstd) (D : Decoders) (srv : Server) (
       else if D.callDecodes body then .ok ⟨r.method, body⟩ else .decodeError
     | .reject x => .reject x | .missingCall => .missingCall | .decodeError => .decodeError | .crash => .crash
 
-/-- steps after the call is resolved: method check, then state decode + hooks -/
-def finishRecover (sh : Shape) (D : Decoders) (r : ReqObs) (st cid : Bytes) (e : CacheEntry) (hit : Bool)
+/-- last step: state decode + `bind_call_state` + `rehydrate` -/
+def finishRecover (D : Decoders) (st cid : Bytes) (e : CacheEntry) (hit : Bool)
     (effs : List Effect) : List Effect × Res Accepted :=
-  if sh.methodBound && e.method != r.method then (effs, .reject .method)
-  else
-    (effs ++ [.stateDecode, .bindCallState, .rehydrate],
-      if D.stateDecodes st then .ok ⟨st, cid, e, hit⟩ else .decodeError)
+  (effs ++ [.stateDecode, .bindCallState, .rehydrate],
+    if D.stateDecodes st then .ok ⟨st, cid, e, hit⟩ else .decodeError)
 
-/-- `_unpack_and_recover_state`: cursor first, then cache, then call token, then method check, then state decode + hooks -/
+/-- `_unpack_and_recover_state`: cursor first, then cache; on a miss the call token (and the cache write); on a hit the
+    method check and the declared-call-state-type check — "the cache must answer exactly as a cold worker would";
+    then state decode + hooks -/
 def recoverObs (sh : Shape) (z : Zstd) (D : Decoders) (srv : Server) (cache : Cache) (r : ReqObs) :
     List Effect × Res Accepted :=
   match openCursorObs sh.strictB64 z srv.key (aad r.who) srv.ttl r.now r.cursor with
   | .ok (st, cid) =>
     match cache cid (cacheIdent r.who) with
-    | some e => finishRecover sh D r st cid e true []
+    | some e =>
+      if sh.methodBound && e.method != r.method then ([], .reject .method)
+      else if !D.hitTypeDeclared e then ([], .decodeError)
+      else finishRecover D st cid e true []
     | none =>
       match resolveCallFromToken sh z D srv r cid with
-      | .ok e => finishRecover sh D r st cid e false [.cachePut]
+      | .ok e => finishRecover D st cid e false [.cachePut]
       | .reject x => ([], .reject x) | .missingCall => ([], .missingCall)
       | .decodeError => ([], .decodeError) | .crash => ([], .crash)
   | .reject x => ([], .reject x) | .missingCall => ([], .missingCall)
@@ -386,8 +402,8 @@ def recover (sh : Shape) (E : Wire) (z : Zstd) (D : Decoders) (srv : Server) (ca
 def Reject.site : Reject → String
   | .curB64 => "_open_cursor_token#0" | .curSeal => "_open_cursor_token#1" | .curMinLen => "_open_cursor_token#2"
   | .curTrailing => "_open_cursor_token#3" | .curExpired => "_open_cursor_token#4"
-  | .callB64 => "_open_call_token#0" | .callSeal => "_open_call_token#1" | .callMinLen => "_open_call_token#2"
-  | .callTrailing => "_open_call_token#3" | .callExpired => "_open_call_token#4"
+  | .callB64 => Token.callOpener ++ "#0" | .callSeal => Token.callOpener ++ "#1" | .callMinLen => Token.callOpener ++ "#2"
+  | .callTrailing => Token.callOpener ++ "#3" | .callExpired => Token.callOpener ++ "#4"
   | .codecEmpty => "_unpack_plaintext#0" | .codecTag => "_unpack_plaintext#1" | .codecZstd => "_unpack_plaintext#2"
   | .segHeader => "_read_segment#0" | .segBody => "_read_segment#1"
   | .pairing => "_resolve_call_from_token#1"
